@@ -484,6 +484,8 @@ class Run:
             o = self.objs[k]
             sp = self.specs[k]
             ident = (sp["p"], o.number)
+            holder = self.outstanding.get(ident)
+            held_before = [f.done() for f, _, _ in self.futs[holder]] if holder is not None else []
             try:
                 r = self.rc.add(o)
             except AssertionError:
@@ -520,6 +522,14 @@ class Run:
                               f"request {k} was registered under identity {ident} while request "
                               f"{self.outstanding[ident]} is outstanding under it")
                 self.stats["dup"] += 1
+                if holder == k:
+                    self.stats["dup:same-object"] = self.stats.get("dup:same-object", 0) + 1
+                # a refused add must not touch the request that IS outstanding under that identity: its tied futures
+                # stay as they were (they belong to its timeout / its response)
+                if holder is not None and [f.done() for f, _, _ in self.futs[holder]] != held_before:
+                    self.fail("RequestCache.add:refused-add-resolved-outstanding-futures",
+                              f"add of request {k} at {t} ms was refused as a duplicate of the outstanding request "
+                              f"{holder}, yet a future tied to the outstanding request was resolved by that call")
                 reply = "dup" if r is None else f"added {self.idx[k]}"
             else:
                 reply = f"added {self.idx[k]}" if r is o else "dup"
@@ -1471,6 +1481,7 @@ def run(ctx: Ctx):
             batch.clear()
     if batch:
         compare_with_model(ctx, batch)
+    run_library_caches(ctx)
     coverage_gate(ctx)
     ctx.extra["exhaustive_scopes"] = (
         "COMPLETE: lanes n=1,2 caches x {absent,6 lanes} per pop x {none, clear|shutdown x 6 lanes} x 6 bodies each "
@@ -1489,7 +1500,7 @@ def run(ctx: Ctx):
 # lost that branch, so the run ends as an infrastructure failure (exit 2) instead of looking like a pass
 REQUIRED_CLASSES = [
     "branch:mk:mk", "branch:mk:inuse", "branch:mkr:mk", "branch:mkr:raised",
-    "branch:add:added", "branch:add:dup", "branch:add:dropped-shutdown", "branch:add:assert", "branch:add:raised",
+    "branch:add:added", "branch:add:dup", "obs:dup:same-object", "branch:add:dropped-shutdown", "branch:add:assert", "branch:add:raised",
     "branch:pop:claimed", "branch:pop:keyerror", "branch:get:none", "branch:get:some",
     "branch:fb:timeout", "branch:fe:fired", "branch:fa:aborted",
     "branch:clear:done", "branch:shutdown:done", "branch:tmshutdown:done",
@@ -1507,9 +1518,142 @@ REQUIRED_CLASSES = [
     "obs:api:pop:str", "obs:api:pop:cls", "obs:api:get:cls", "obs:api:ret:str", "obs:api:ret:wd", "obs:api:ret:2p",
     "obs:api:ret:wd2", "obs:passthrough_exit_by_exception", "obs:late_add_shutdown", "obs:tm_shutdown",
     "obs:op_while_shutdown_awaits", "family:random+service-loop", "family:lanes+service-loop",
-    "family:sequences+service-loop", "obs:service_loop:zero-delay-add", "family:random", "family:population", "family:long", "family:lanes",
+    "family:sequences+service-loop", "obs:service_loop:zero-delay-add", "family:library-caches",
+    "library_cache:exercised", "library_cache:futures-checked", "family:random", "family:population", "family:long", "family:lanes",
     "family:sequences",
 ]
+
+
+
+# ---------------------------------------------------------------------------------------------------------
+# the request classes the LIBRARY ships (NumberCache subclasses with their own on_timeout overrides)
+# ---------------------------------------------------------------------------------------------------------
+def library_cache_classes():
+    """every NumberCache subclass defined in the ipv8 package (modules are imported as found; test code excluded)"""
+    import importlib
+    import inspect
+    import pkgutil
+
+    import ipv8
+    from ipv8.requestcache import NumberCache
+    found = {}
+    for m in pkgutil.walk_packages(ipv8.__path__, "ipv8."):
+        if ".test" in m.name:
+            continue
+        try:
+            mod = importlib.import_module(m.name)
+        except Exception:  # optional dependencies
+            continue
+        for name, obj in vars(mod).items():
+            if inspect.isclass(obj) and issubclass(obj, NumberCache) and obj.__module__ == m.name \
+                    and not obj.__module__.endswith("requestcache") and "on_timeout" in vars(obj):
+                found[f"{obj.__module__}.{name}"] = obj
+    return found
+
+
+def library_factories():
+    """how to build the library's request classes that carry futures of their own (arguments are duck-typed stand-ins);
+    each entry yields (label, constructor(rc) -> cache, timeout_ms)"""
+    from types import SimpleNamespace as NS
+
+    def community(rc):
+        return NS(request_cache=rc, swarms={}, logger=logging.getLogger("c10-lib"), circuits={})
+    out = []
+    for last_response in (0.0, 1e12):                # node never answered / answered something after this request was sent
+        for failed in (0, 3):
+            for consume in (False, True):
+                def mk(rc, last_response=last_response, failed=failed, consume=consume):
+                    from ipv8.dht.community import Request
+                    node = NS(last_response=last_response, failed=failed, rtt=0.0, id=b"\x01" * 20)
+                    return Request(community(rc), "ping", node, consume_errors=consume, timeout=0.25)
+                out.append((f"ipv8.dht.community.Request[last_response={'later' if last_response else 'never'},"
+                            f"failed={failed},consume_errors={consume}]", "ipv8.dht.community.Request", mk, 250))
+    for target in (None, "ip"):
+        def mk2(rc, target=target):
+            from ipv8.messaging.anonymization.caches import PeersRequestCache
+            return PeersRequestCache(community(rc), NS(circuit_id=1), b"\x02" * 20, target)
+        out.append((f"ipv8.messaging.anonymization.caches.PeersRequestCache[target={target}]",
+                    "ipv8.messaging.anonymization.caches.PeersRequestCache", mk2, None))
+
+    def mk3(rc):
+        from ipv8.messaging.anonymization.caches import TestRequestCache
+        return TestRequestCache(community(rc), NS(circuit_id=1))
+    out.append(("ipv8.messaging.anonymization.caches.TestRequestCache", "ipv8.messaging.anonymization.caches.TestRequestCache",
+                mk3, None))
+    return out
+
+
+def run_library_caches(ctx: Ctx):
+    """the property on the library's own request classes: registered, not answered -> the timeout fires exactly once, the
+    identity is free afterwards, and EVERY asyncio future the request object carries (managed or not) is done"""
+    import inspect
+
+    import vclock
+    from ipv8.requestcache import RequestCache
+    classes_found = library_cache_classes()
+    ctx.extra["library_on_timeout_overrides"] = sorted(classes_found)
+    factories = library_factories()
+    have = {cls for _, cls, _, _ in factories}
+    for name, cls in classes_found.items():
+        carries = "Future" in inspect.getsource(cls)
+        ctx.count("library_cache:" + ("exercised" if name in have else "carries-future-but-no-factory" if carries
+                                      else "no-own-future"))
+        if carries and name not in have:
+            from vlib import InfraError
+            raise InfraError(f"library request class {name} carries a future but harness/c10.py has no factory for it")
+    for label, _, mk, tmo in factories:
+        loop = vclock.VLoop()
+        asyncio.set_event_loop(loop)
+        vclock.install(loop)
+        loop.set_exception_handler(lambda *_: None)
+        res = {}
+
+        async def scenario():
+            rc = RequestCache()
+            cache = mk(rc)
+            fired = []
+            orig = cache.on_timeout
+            cache.on_timeout = lambda: (fired.append(1), orig())[1]
+            if rc.add(cache) is None:
+                res["problem"] = "add refused a fresh library request"
+                return
+            futs = {a: v for a, v in vars(cache).items() if isinstance(v, asyncio.Future)}
+            await asyncio.sleep(round(cache.timeout_delay * 1000 + 1000) / 1000.0)
+            res["fired"] = len(fired)
+            res["has"] = rc.has(cache.prefix, cache.number)
+            res["pending"] = sorted(a for a, v in futs.items() if not v.done())
+            res["nfuts"] = len(futs)
+            for v in futs.values():
+                if v.done() and not v.cancelled():
+                    v.exception()
+            await rc.shutdown()
+        try:
+            loop.run_until_complete(scenario())
+        except Exception as e:
+            res["problem"] = f"{type(e).__name__}: {e}"
+        finally:
+            vclock.uninstall()
+            asyncio.set_event_loop(None)
+            loop.close()
+        ctx.case(("library", label), True)
+        ctx.count("family:library-caches")
+        cls_short = label.split("[")[0].split(".")[-1]
+        if res.get("problem"):
+            from vlib import InfraError
+            raise InfraError(f"library request {label} could not be exercised: {res['problem']}")
+        if res["fired"] != 1:
+            ctx.oracle_fail(f"{cls_short}.on_timeout:fired-{res['fired']}-times",
+                            f"library request {label}: registered and never answered, its on_timeout ran {res['fired']} times",
+                            {"library": label})
+        if res["has"]:
+            ctx.oracle_fail(f"{cls_short}:still-registered-after-timeout",
+                            f"library request {label} is still registered after its timeout", {"library": label})
+        if res["pending"]:
+            ctx.oracle_fail(f"{cls_short}.on_timeout:future-left-pending",
+                            f"library request {label} timed out (identifier released, on_timeout ran) but the future(s) "
+                            f"{res['pending']} tied to it are still pending: whoever awaits the request hangs",
+                            {"library": label})
+        ctx.count("library_cache:futures-checked", res["nfuts"])
 
 
 def coverage_gate(ctx: Ctx):
@@ -1552,6 +1696,11 @@ def search(ctx: Ctx, reason: str):
 
 def replay(ctx: Ctx, rec: dict):
     r = rec.get("replay", rec)
+    if "library" in r:
+        run_library_caches(ctx)
+        print("replay (library request classes): property " + ("FAILS: " + "; ".join(f["what"] for f in ctx.failures[:3])
+                                                                 if ctx.failures else "holds"))
+        return
     case = r["case"]
     batch = [] if ctx.model_ok else None
     run_ = run_case(ctx, case, batch)
